@@ -1721,3 +1721,61 @@ def r_no_npmatrix(ctx, f: FunctionInfo, rule="R-KIND", chain=None):
                f"`{unparse(bad[0])[:50]}` returns: 2-D-only semantics break partial_trace / is_trace_preserving on the result (\"shape too large to be a matrix\")", bad[0], chain=chain)
     else:
         ctx.ob(rule, f, key, True, f"{len(makers)} matrix-class maker(s), none reaches a return", chain=chain)
+
+
+# ---------------------------------------------------------------------------------------------
+def r_operand_preserved(ctx, f: FunctionInfo, pname: str, rule="R-COV", chain=None):
+    """The operator a predicate / measure is asked about may be re-bound only to something that denotes the same operator up to a
+    positive scalar: X / s, np.array(X) and friends, its Hermitian part (X + X^+)/2 (a no-op on the Hermitian operators the property
+    quantifies over).  A combination of X with its bare transpose or bare conjugate -- (X + X.T)/2 -- is the entrywise real part of a
+    Hermitian X: a different operator for every complex state, silently."""
+    from .norm import Normalizer as _N, subterms as _sub
+    N = _N(ctx.model, f, inline=False)
+    X = ("n", pname)
+    sites, bad, unk = 0, None, None
+    for n in walk_no_nested(f.node):
+        if isinstance(n, ast.Assign) and len(n.targets) == 1 and isinstance(n.targets[0], ast.Name) and n.targets[0].id == pname:
+            t = N(n.value)
+        elif isinstance(n, ast.AugAssign) and isinstance(n.target, ast.Name) and n.target.id == pname:
+            t = N(ast.BinOp(left=ast.Name(id=pname, ctx=ast.Load()), op=n.op, right=n.value))
+        else:
+            continue
+        if X not in list(_sub(t)) and t != X:
+            continue  # re-bound to something else entirely (a default, a conversion of another value): not this rule's
+        sites += 1
+        ok = None
+        core = t
+        # strip positive scalings
+        while True:
+            if core[0] == "/" and core[1] != X and X in list(_sub(core[1])) and X not in [y for y in _sub(core[2]) if y == X and False]:
+                core = core[1]
+            elif core[0] == "/" and core[1] == X:
+                core = X
+            elif core[0] == "*" and sum(1 for y in core[1] if y == X or X in list(_sub(y))) == 1 and all(y[0] in ("c", "call", "n", "/", "**") for y in core[1] if not (y == X or X in list(_sub(y)))):
+                core = next(y for y in core[1] if y == X or X in list(_sub(y)))
+            else:
+                break
+        if core == X:
+            ok = True
+        elif core[0] == "call" and core[1] in ("numpy.array", "numpy.asarray", "numpy.asarray_chkfinite", "numpy.copy", "numpy.ascontiguousarray", "numpy.atleast_2d") and core[2] and core[2][0] == X:
+            ok = True
+        elif core[0] == "call" and isinstance(core[1], tuple) and core[1][0] == "attr" and core[1][1] == X and core[1][2] in ("copy", "astype", "toarray", "todense"):
+            ok = True
+        elif core[0] == "+" and len(core[1]) == 2 and set(core[1]) == {X, ("dag", X)}:
+            ok = True
+        elif core[0] == "+" and len(core[1]) == 2 and X in core[1] and (("T", X) in core[1] or ("conj", X) in core[1]):
+            ok = False
+        elif core in (("T", X), ("conj", X)):
+            ok = False
+        if ok is False:
+            bad = bad or n
+        elif ok is None:
+            unk = unk or n
+    key = f"`{pname}` is only re-bound to the same operator (scaling, conversion, Hermitian part)"
+    if bad is not None:
+        ctx.ob(rule, f, key, False, f"`{unparse(bad)[:70]}` combines `{pname}` with its bare transpose / conjugate: for a Hermitian operator that is its entrywise real part "
+               "(X^T = conj X), so every complex input is replaced by a different, real operator before it is examined; the Hermitian part is (X + X.conj().T)/2", bad, chain=chain)
+    elif unk is not None:
+        ctx.ob(rule, f, key, None, f"`{unparse(unk)[:70]}`: not one of the recognised operator-preserving forms", unk, chain=chain, required=False)
+    else:
+        ctx.ob(rule, f, key, True, f"{sites} re-binding(s), all operator-preserving", chain=chain)
